@@ -1085,7 +1085,20 @@ func (ex *Exec) callIsHeapPure(call *ast.CallExpr) bool {
 		return len(c.Modifies) == 0
 	}
 	if !ex.w.IsRepoFunc(fn) {
-		return ex.isObserverPkg(fn)
+		// library code writes library objects only, except the decoders that fill a caller-supplied object
+		switch fn.Name() {
+		case "Unmarshal", "UnmarshalJSON", "Decode", "Scan", "Sscan", "Sscanf", "Read", "ReadFull":
+			return false
+		}
+		if sig := fn.Type().(*types.Signature); sig.Recv() != nil && !ex.isObserverPkg(fn) {
+			if _, isIface := sig.Recv().Type().Underlying().(*types.Interface); isIface {
+				// interface method whose implementation may be user code
+				if _, known := pureLibrary[full]; !known {
+					return false
+				}
+			}
+		}
+		return true
 	}
 	if fi := ex.w.Funcs[full]; fi != nil && fi.Decl.Body != nil {
 		return ex.bodyIsHeapPure(fi, 0)
@@ -1306,8 +1319,11 @@ func (ex *Exec) execRange(p *Path, st *ast.RangeStmt) []outcome {
 		_, dom, val, _ := ex.c.mapParts(coll.Ty)
 		ks := ex.c.SortOf(ct.Key())
 		doneSort := "(Array " + ks + " Bool)"
+		doneT := types.NewMap(ct.Key(), types.Typ[types.Bool])
+		dmk, _, _, _ := ex.c.mapParts(doneT)
 		bindDone := func(q *Path, d string) {
-			q.names["done"] = Value{d, types.NewMap(ct.Key(), types.Typ[types.Bool])}
+			// `done[k]` reads as membership in the processed set
+			q.names["done"] = Value{app(dmk, d, ex.c.constArray(ks, "Bool", "true"), "false"), doneT}
 			q.names["_done"] = Value{d, nil}
 		}
 		emptyDone := ex.c.constArray(ks, "Bool", "false")
